@@ -345,13 +345,17 @@ func extractTimeout(headers http.Header, protocol conformancev1.Protocol, feedba
 			break
 		}
 		headers.Del(connectTimeoutHeader)
-		intVal, err := strconv.ParseInt(val, 10, 64)
-		if err != nil || intVal < 0 {
+		if !isASCIIDigits(val) {
 			feedback.Printf("invalid numeric value for %q header: %q", connectTimeoutHeader, val)
 			break
 		}
-		if intVal > 9999999999 { // 10 digit max
+		if len(val) > 10 { // 10 digit max
 			feedback.Printf("invalid numeric value (>10 digits) in %q header: %q", connectTimeoutHeader, val)
+			break
+		}
+		intVal, err := strconv.ParseInt(val, 10, 64)
+		if err != nil {
+			feedback.Printf("invalid numeric value for %q header: %q", connectTimeoutHeader, val)
 			break
 		}
 		timeout := time.Duration(intVal) * time.Millisecond
@@ -375,13 +379,17 @@ func extractTimeout(headers http.Header, protocol conformancev1.Protocol, feedba
 			feedback.Printf("invalid unit in %q header: %q", grpcTimeoutHeader, val)
 			break
 		}
-		intVal, err := strconv.ParseInt(timeoutStr, 10, 64)
-		if err != nil || intVal < 0 {
+		if !isASCIIDigits(timeoutStr) {
 			feedback.Printf("invalid numeric value in %q header: %q", grpcTimeoutHeader, val)
 			break
 		}
-		if intVal > 99999999 { // 8 digit max
+		if len(timeoutStr) > 8 { // 8 digit max
 			feedback.Printf("invalid numeric value (>8 digits) in %q header: %q", grpcTimeoutHeader, val)
+			break
+		}
+		intVal, err := strconv.ParseInt(timeoutStr, 10, 64)
+		if err != nil {
+			feedback.Printf("invalid numeric value in %q header: %q", grpcTimeoutHeader, val)
 			break
 		}
 		var timeout time.Duration
@@ -413,6 +421,22 @@ func extractTimeout(headers http.Header, protocol conformancev1.Protocol, feedba
 		return timeout, true
 	}
 	return 0, false
+}
+
+// isASCIIDigits returns true if the given string is non-empty and consists only
+// of ASCII digits. The timeout grammars of the Connect and gRPC protocols allow
+// nothing else: no sign, no whitespace, and a limited number of digits (which
+// includes any leading zeros).
+func isASCIIDigits(val string) bool {
+	if val == "" {
+		return false
+	}
+	for i := 0; i < len(val); i++ {
+		if val[i] < '0' || val[i] > '9' {
+			return false
+		}
+	}
+	return true
 }
 
 func contextWithTimeout(ctx context.Context, timeout time.Duration) context.Context {
